@@ -391,7 +391,7 @@ package server
 //@   frame-by-effects
 //@   requires s != nil && lock == 0 && !pending
 //@   after-lock s.aof != nil && fname(s.aof) == liveName() && flx && registriesNonNil(s) && len(fdata) >= 0 && len(s.aofbuf) >= 0 && s.aofsz == len(fdata) + len(s.aofbuf) && fpos == len(fdata) && ncomplete == ndispatched
-//@   modifies lock, steps, ndispatched, lastDispatched, perCall, fdata, fpos, ncomplete, flx, fsd, fsx, fsy
+//@   modifies lock, steps, ndispatched, lastDispatched, perCall, fdata, fpos, ncomplete, flx, fsd, fsx, fsy, nflushed
 //@   ensures [lock-balance] lock == 0
 //@   ensures [resume-at-log-end] err == nil ==> pos == s.aofsz
 //@   ensures [size-is-file-size] err == nil ==> s.aofsz == len(fdata)
@@ -421,7 +421,7 @@ package server
 //@   frame-by-effects
 //@   requires s != nil && lock == 0 && !pending && len(args) > 0
 //@   after-lock s.aofsz >= 0 && (len(s.aofbuf) > 0 ==> s.aof != nil)
-//@   modifies lock, ndispatched, lastDispatched, fdata, fpos, steps, perCall
+//@   modifies lock, ndispatched, lastDispatched, fdata, fpos, steps, perCall, nflushed, nlogged, mine
 //@   ensures [lock-balance] lock == 0
 //@   ensures [returns-log-size] result0 == s.aofsz
 //@   at-call Server.command [A4.apply-under-lock] lock == 2
@@ -435,7 +435,7 @@ package server
 //@   frame-by-effects
 //@   requires s != nil && lock == 0 && !pending
 //@   after-lock s.aofsz >= 0 && (len(s.aofbuf) > 0 ==> s.aof != nil)
-//@   modifies lock, steps, ndispatched, lastDispatched, perCall, fdata, fpos, ncomplete, flx, fsd, fsx, fsy
+//@   modifies lock, steps, ndispatched, lastDispatched, perCall, fdata, fpos, ncomplete, flx, fsd, fsx, fsy, nflushed, nlogged, mine
 //@   ensures [lock-balance] lock == 0
 // the leader streams the commands of its own log, none of which is empty
 //@   env-at-call Server.followHandleCommand len(arg0) > 0
@@ -477,7 +477,7 @@ package server
 //@   uses enc.args.0, enc.args.step, enc.log.0, enc.log.step, btree.map.from.len
 //@   requires s != nil && lock == 0 && !pending && !swapping && s.opts.AppendFileName == liveName()
 //@   after-lock (s.aof != nil ==> fname(s.aof) == liveName() && flx) && (len(s.aofbuf) > 0 ==> s.aof != nil) && fpos == len(fdata)
-//@   modifies lock, steps, fdata, fpos, flx, fsd, fsx, fsy, shrOld, shrNew, shrPre, curKey, curId, recStar, swapping
+//@   modifies lock, steps, fdata, fpos, flx, fsd, fsx, fsy, shrOld, shrNew, shrPre, curKey, curId, recStar, swapping, nflushed
 //@   ensures [lock-balance] lock == 0
 // -- batches: keys are taken 8 at a time from where the previous batch stopped, ids 32 at a time, each key from ""
 //@   loop 1 entry [keys-from-start] nextkey == "" && len(keys) == 0 && !keysdone
